@@ -24,7 +24,12 @@ NOT_APPLICABLE = {}
 
 CHECKS = {}
 for _f in sorted(glob.glob(os.path.join(_D, "C*.json"))):
-    _spec = json.load(open(_f))
+    try:
+        _spec = json.load(open(_f))
+    except Exception as _e:  # a half-written file must not break the other checks
+        import sys as _sys
+        print("checks.py: skipping unparsable %s: %s" % (_f, _e), file=_sys.stderr)
+        continue
     if _spec.get("disabled"):
         continue
     CHECKS[os.path.basename(_f)[:-5]] = _spec
